@@ -56,7 +56,8 @@ pub fn run_property(prop: &str, tier: Tier, seed: u64, scale: f64) -> i32 {
             exhaustive = Some(false);
             extra.insert("exhaustive_scope".into(), serde_json::json!("per sampled history the crash-point x loss-model (L1,L2) x single age-commit placement space is enumerated completely; the histories themselves (and L3/torn/EIO/double placements) are sampled"));
             vec![
-                batch(&Crash, tier, seed, 4_000, 12_000, scale),
+                batch(&Crash { long: false }, tier, seed, 4_000, 12_000, scale),
+                batch(&Crash { long: true }, tier, seed, 1_500, 30_000, scale),
                 batch(&ActorScen { cap_focus: false, removal_focus: false, crash_focus: true }, tier, seed, 20_000, 500_000, scale),
             ]
         }
@@ -124,7 +125,8 @@ fn replay_dispatch(prop: &str, scenario: &str, plan: Value) -> Result<(Option<cr
         (_, "actor-capability") => replay_plan(&ActorScen { cap_focus: true, removal_focus: false, crash_focus: false }, plan),
         (_, "coord") => replay_plan(&Coord, plan),
         (_, "coord-real") => replay_plan(&CoordReal, plan),
-        (_, "crash") => replay_plan(&Crash, plan),
+        (_, "crash") => replay_plan(&Crash { long: false }, plan),
+        (_, "crash-long") => replay_plan(&Crash { long: true }, plan),
         (_, "docs-cap") => replay_plan(&Docs { mode: DocsMode::Cap }, plan),
         (_, "docs-policy") => replay_plan(&Docs { mode: DocsMode::Policy }, plan),
         (_, "docs-remove") => replay_plan(&Docs { mode: DocsMode::Remove }, plan),
@@ -238,7 +240,7 @@ pub fn determinism(prop: Option<&str>, seeds: u64) -> i32 {
     if all || p == "C03" { twice(&Forge, seeds, &mut bad); }
     if all || p == "C04" { twice(&Swarm { big_skew: false }, seeds, &mut bad); twice(&Swarm { big_skew: true }, seeds.min(50), &mut bad); }
     if all || p == "C05" { twice(&QueryScen, seeds, &mut bad); }
-    if all || p == "C06" { twice(&Crash, seeds.min(60), &mut bad); }
+    if all || p == "C06" { twice(&Crash { long: false }, seeds.min(60), &mut bad); twice(&Crash { long: true }, seeds.min(40), &mut bad); }
     if all || p == "C07" { twice(&Docs { mode: DocsMode::Cap }, seeds, &mut bad); }
     if all || p == "C09" { twice(&Wire, seeds, &mut bad); twice(&Decoders { mode: PureMode::Codecs }, seeds, &mut bad); }
     if all || p == "C10" { twice(&Session, seeds, &mut bad); }
